@@ -1732,6 +1732,14 @@ func (c *Ctx) checkSeparatorFn(g *ssa.Function) {
 				if ix, isIx := cmp.X.(*ssa.Index); isIx && ix.X == ssa.Value(name) && ix.Index == v && k == ':' {
 					colon = true
 				}
+				// the byte at that position of a []byte copy of the name
+				if ld, isLd := cmp.X.(*ssa.UnOp); isLd && ld.Op == token.MUL && k == ':' {
+					if ia, isIA := ld.X.(*ssa.IndexAddr); isIA && ia.Index == v {
+						if cv, isCv := c.resolve(ia.X).(*ssa.Convert); isCv && cv.X == ssa.Value(name) {
+							colon = true
+						}
+					}
+				}
 				if _, isPhi := cmp.X.(*ssa.Phi); isPhi && k == 0 {
 					depth0 = true
 				}
